@@ -408,11 +408,19 @@ def edits(t, inserts=True):
         elif k == "arg1":
             yield ("del-arg", s[:a] + s[b:])
             yield ("add-arg", s[:b] + ",1" + s[b:])
+            # an EMPTY extra argument (trailing / leading separator) is a wrong number of arguments as well
+            yield ("add-empty-arg", s[:b] + "," + s[b:])
+            yield ("add-empty-arg", s[:b] + " , " + s[b:])
+            yield ("add-empty-arg", s[:a] + "," + s[a:])
         elif k == "arg2a":
             yield ("del-arg", s[:a] + s[b:])
+            yield ("add-empty-arg", s[:a] + "," + s[a:])       # pow(,2,3)
+            yield ("add-empty-arg", s[:b] + "," + s[b:])       # pow(2,,3)
         elif k == "arg2b":
             yield ("del-arg", s[:a] + s[b:])
             yield ("add-arg", s[:b] + ",1" + s[b:])
+            yield ("add-empty-arg", s[:b] + "," + s[b:])       # pow(2,3,)
+            yield ("add-empty-arg", s[:b] + " ," + s[b:])
 
 
 # ---------------------------------------------------------------- layers
